@@ -542,7 +542,7 @@ class Interp:
         elif h in ('interval', 'delayiter'):
             from usim import interval, delay
             n = 0
-            self.emit(label, 'tbegin', [1 if h == 'interval' else 0] + tpair(s[1], self.kind))
+            self.emit(label, 'tbegin', [1 if h == 'interval' else 0] + tpair(s[1], self.kind) + [s[2]])
             if s[2] > 0:
                 async for _now in (interval if h == 'interval' else delay)(self.tv(s[1])):
                     self.emit(label, 'tick')
@@ -553,6 +553,7 @@ class Interp:
                         break
             elif self.tv(s[1]) < 0:
                 raise ValueError('period must not be negative')
+            self.emit(label, 'tend')     # the loop was left without an exception
         elif h == 'collect':
             from usim import collect
             holders = [{} for _ in s[1:]]
